@@ -78,6 +78,19 @@ func TestC24(t *testing.T) {
 		m.Count("mirror_types_verified", n)
 	}
 
+	// observation only (outside the judged set, see level_note): a struct whose
+	// encoding is empty (no sshtype, only an empty rest field)
+	if m.Batch() == 0 {
+		type bareRest struct {
+			R []byte `ssh:"rest"`
+		}
+		var o bareRest
+		if err := ssh.Unmarshal(ssh.Marshal(bareRest{}), &o); err != nil {
+			m.Count("observed_empty_encoding_rejected", 1)
+			m.Note("observation (not judged): Unmarshal(Marshal(struct{R []byte `ssh:\"rest\"`}{})) fails: " + err.Error())
+		}
+	}
+
 	// ---- exhaustive part: the quantifier's mpint set through three shapes ----
 	m.Each("mpint-sweep", 521+len(smallMpints), func(i int64, r *rand.Rand) {
 		var set []*big.Int
